@@ -266,3 +266,148 @@ var SpEffectDebug = &core.Rule{Name: "D-SPEFFECT", Run: func(p *core.Prog) *core
 	res.Count("constant effect", c)
 	return res
 }}
+
+// branchEff: operand-stack effect of an instruction split by what it does to vm.pc:
+// Fall = paths ending in vm.pc++ (control continues with the next instruction),
+// Taken = paths ending in vm.pc += <operand> (a relative jump).
+type branchEff struct {
+	OK          bool
+	Fall, Taken []int
+}
+
+func (b branchEff) String() string {
+	if !b.OK {
+		return "?"
+	}
+	return fmt.Sprintf("fall%v taken%v", b.Fall, b.Taken)
+}
+
+// branches derives branchEff for an exec method. sp is the analysis of vm.sp, pc of vm.pc.
+func branches(sp, pc *spAnalysis, f *ssa.Function) branchEff {
+	if f == nil || len(f.Blocks) == 0 {
+		return branchEff{}
+	}
+	fall, taken := map[int]bool{}, map[int]bool{}
+	ok := true
+	budget := spPathBudget
+	onPath := map[*ssa.BasicBlock]bool{}
+	var walk func(b *ssa.BasicBlock, delta, kind int)
+	walk = func(b *ssa.BasicBlock, delta, kind int) {
+		if !ok {
+			return
+		}
+		budget--
+		if budget < 0 || onPath[b] {
+			if budget < 0 {
+				ok = false
+			}
+			return
+		}
+		onPath[b] = true
+		defer delete(onPath, b)
+		for _, in := range b.Instrs {
+			switch x := in.(type) {
+			case *ssa.Panic:
+				return
+			case *ssa.Store:
+				switch core.FieldOf(x.Addr) {
+				case sp.spField:
+					d, k := sp.spAdjust(x)
+					if !k {
+						ok = false
+						return
+					}
+					delta += d
+				case pc.spField:
+					if kind != 0 {
+						ok = false
+						return
+					}
+					if d, k := pc.spAdjust(x); k {
+						if d != 1 {
+							ok = false
+							return
+						}
+						kind = 1
+					} else if bo, isBin := x.Val.(*ssa.BinOp); isBin && bo.Op == token.ADD {
+						if ld, isLd := bo.X.(*ssa.UnOp); isLd && ld.Op == token.MUL && core.FieldOf(ld.X) == pc.spField {
+							kind = 2
+						} else {
+							ok = false
+							return
+						}
+					} else {
+						ok = false
+						return
+					}
+				}
+			case ssa.CallInstruction:
+				if _, isDefer := in.(*ssa.Defer); isDefer {
+					continue
+				}
+				callee := x.Common().StaticCallee()
+				if callee != nil && sp.throwFn[callee] {
+					return
+				}
+				if c, isCall := in.(*ssa.Call); isCall && sp.p.CallNeverReturns(c) {
+					return
+				}
+				if callee == nil || !sp.p.InModule(callee) || !sp.takesVM(callee) {
+					continue
+				}
+				es := sp.of(callee)
+				d, k := es.Const()
+				if !k {
+					if es.Known && len(es.Vals) == 0 {
+						return
+					}
+					ok = false
+					return
+				}
+				delta += d
+				ep := pc.of(callee)
+				pd, k := ep.Const()
+				if !k || pd < 0 || pd > 1 {
+					ok = false
+					return
+				}
+				if pd == 1 {
+					if kind != 0 {
+						ok = false
+						return
+					}
+					kind = 1
+				}
+			case *ssa.Return:
+				if b == f.Recover {
+					return
+				}
+				switch kind {
+				case 1:
+					fall[delta] = true
+				case 2:
+					taken[delta] = true
+				default:
+					ok = false
+				}
+				return
+			}
+		}
+		for _, s := range b.Succs {
+			walk(s, delta, kind)
+		}
+	}
+	walk(f.Blocks[0], 0, 0)
+	out := branchEff{OK: ok}
+	if ok {
+		for v := range fall {
+			out.Fall = append(out.Fall, v)
+		}
+		for v := range taken {
+			out.Taken = append(out.Taken, v)
+		}
+		sort.Ints(out.Fall)
+		sort.Ints(out.Taken)
+	}
+	return out
+}
